@@ -38,7 +38,8 @@ ClientProxyBuilder / Scales builder over the REAL MessageDispatcher, below it a 
 result and answers the scenario controls.  Scenarios (seeded): calls made before the open completed, after,
 and a mix (also between the open result being set and its continuations running); several calls outstanding
 at once, each with an argument of its own; answers in a scenario-chosen order, some of them errors, some
-calls left unanswered; DispatcherOpen() asked again ("wait until ready") before / between / after the early
+calls left unanswered; per message the sink keeps it and answers later, or answers at once inside AsyncProcessRequest
+(value or error, early and late calls), or raises inside AsyncProcessRequest (never answered); DispatcherOpen() asked again ("wait until ready") before / between / after the early
 calls, after the open completed, twice; error answers of several classes (args, own __str__, raised and caught so
 they carry a traceback, built as sinks do: MethodReturnMessage(error=ex)) and string values with format-hostile
 texts ('%', '{}', backslashes, non-ASCII, very long, empty), falsy and large values; the loop advanced between
@@ -73,6 +74,8 @@ ASSUMPTIONS = [
   'IPv6 literals and endpoints without a port are outside "host:port" (the parser rejects them with ValueError); '
   'not asserted either way',
   'inputs are sampled (seeded), not enumerated',
+  'host names are compared case-insensitively (tcp:// endpoints and zk:// ensemble hosts); ZooKeeper paths and endpoint '
+  'names are compared as given (case sensitive); paths hold no whitespace, ?, ; or #',
   'end-to-end mode: every call of a scenario carries an argument of its own (a zero-argument method is called at '
   'most once per scenario), so the sink message of a call is identified by its content; the sink is directly below '
   'the dispatcher (builder path: below the timeout sink); open always succeeds; no call times out (timeouts are '
@@ -123,6 +126,9 @@ def models(prop, tier):
   ms.append(dict(module='ProxyDispatch', cfg='ProxyDispatch_shared.cfg', workers=2, expect_violation='NoViolation',
                  what='counterexample generator: the drain shape with completion closures sharing the loop '
                       'variable (every completion sets the result of the last queued call)'))
+  ms.append(dict(module='ProxyDispatch', cfg='ProxyDispatch_peel.cfg', workers=2, expect_violation='NoViolation',
+                 what='counterexample generator: Unwrap peels completed nested results and takes a call result that '
+                      'has already failed (the sink answered with an error at once) for the value None'))
   return ms
 
 
@@ -229,8 +235,13 @@ def _gen_iface(rng, idx, shape=None):
 _HOSTS = ['localhost', 'h1', 'h2', 'zk1.zk.com', '10.0.0.1', '192.168.1.250', 'a-b', 'a_b', 'x', 'node-7.dc.example.org',
           'h', '0', 'a.b.c.d.e']
 _PORTS = ['1', '80', '8080', '2181', '9090', '65535', '10', '443', '31337']
-_PATHS = ['', '/', '/a', '/test/path', '/a/b_c/d-1', '/service/prod/thrift-mux/members', '/x/']
-_EPS = ['', '', 'http', 'thrift', 'thrift-mux', 'a_b', 'admin1']
+_PATHS = ['', '/', '/a', '/test/path', '/a/b_c/d-1', '/service/prod/thrift-mux/members', '/x/',
+          # znode paths are case sensitive (and may hold other characters whose case / spelling matters)
+          '/Prod/UserService', '/A', '/aB/Cd_E-1', '/services/Foo.Bar/v2', '/X/y/', '/a~b/C+d', '/%41b/%e9', '/ZK']
+_EPS = ['', '', 'http', 'thrift', 'thrift-mux', 'a_b', 'admin1',
+        # so are endpoint names (keys of a member's additional endpoints)
+        'Admin', 'HTTP', 'thriftMux', 'a_B']
+_HOSTS_MIXED = ['ZK1.zk.com', 'Host-A', 'NODE7']     # host names are not case sensitive: compared as such
 _OTHER = ['http://h:1', 'https://h1:443/x', 'tcps://h:1', 'xtcp://h:1', 'zks://h:1/p', 'kz://h:1/p', 'zookeeper://h:2181/p',
           'h:1', 'localhost:8080,localhost:8081', '', 'tcp', 'zk', '//h:1', 'tcp//h:1', 'udp://h:1,h2:2', 'mux://h:1',
           'tcp.x://h:1', 'file:///tmp/x', 'z://h:1']
@@ -240,12 +251,12 @@ def _gen_uri(rng):
   r = rng.random()
   if r < 0.45:
     n = rng.choice([1, 1, 2, 2, 3, 4, 6, 9])
-    eps = ['%s:%s' % (rng.choice(_HOSTS), rng.choice(_PORTS)) for _ in range(n)]
+    eps = ['%s:%s' % (rng.choice(_HOSTS if rng.random() < 0.93 else _HOSTS_MIXED), rng.choice(_PORTS)) for _ in range(n)]
     tail = rng.choice(['', '', '', '/'])
     return 'tcp://' + ','.join(eps) + tail
   if r < 0.8:
     n = rng.choice([1, 1, 2, 3, 5])
-    eps = ['%s:%s' % (rng.choice(_HOSTS), rng.choice(_PORTS)) for _ in range(n)]
+    eps = ['%s:%s' % (rng.choice(_HOSTS if rng.random() < 0.9 else _HOSTS_MIXED), rng.choice(_PORTS)) for _ in range(n)]
     ep = rng.choice(_EPS)
     return 'zk://' + ','.join(eps) + rng.choice(_PATHS) + ('#' + ep if ep else '')
   return rng.choice(_OTHER)
@@ -306,7 +317,15 @@ def _gen_e2e(rng, idx):
       drain.append({'op': 'settle'})
     elif r < 0.6:
       drain.append({'op': 'step', 'n': rng.choice([1, 2, 3])})
-  return {'kind': 'e2e', 'iface': spec, 'mode': mode, 'steps': steps, 'drain': drain,
+  # what the sink does with the k-th message it receives: keep it and answer when the scenario says so
+  # ("later"), answer at once inside AsyncProcessRequest ("now": value or error), or raise inside
+  # AsyncProcessRequest ("throw": the message is never answered)
+  plan = []
+  for _ in range(ncalls):
+    r = rng.random()
+    plan.append({'how': 'later' if r < 0.55 else ('now' if r < 0.92 else 'throw'),
+                 'kind': 'value' if rng.random() < 0.5 else 'raise', 'pick': rng.randint(0, 10 ** 6)})
+  return {'kind': 'e2e', 'iface': spec, 'mode': mode, 'steps': steps, 'drain': drain, 'sink_plan': plan,
           'keep_unanswered': 1 if rng.random() < 0.15 else 0,
           'via': rng.choice(['builder', 'builder', 'direct']),
           'open_wait': rng.choice([0, 0, -1]),
@@ -1018,7 +1037,7 @@ def _run_e2e(loop, script, ev):
   names = _function_names(I)
 
   pool = _Pool()
-  st = {'seq': 0, 'opened': False, 'early': 0, 'calls': 0, 'reopens': 0, 'escaped': 0}
+  st = {'seq': 0, 'opened': False, 'early': 0, 'calls': 0, 'reopens': 0, 'escaped': 0, 'thrown': 0}
   outstanding = []        # [seq, sink_stack] received, not answered
   sinks = []
   late = script['mode'] != 'after'
@@ -1057,10 +1076,36 @@ def _run_e2e(loop, script, ev):
         'm': cps(m) if isinstance(m, str) else [-1],
         'args': [pool.tok(x) for x in a] if isinstance(a, (tuple, list)) else [-1],
         'kw': _kwlist(pool, k) if isinstance(k, dict) else [{'k': [], 'v': -1}]}})
-      outstanding.append([st['seq'], sink_stack])
+      plan = script.get('sink_plan') or []
+      how = plan[st['seq'] - 1] if st['seq'] <= len(plan) else {'how': 'later'}
+      if how['how'] == 'later':
+        outstanding.append([st['seq'], sink_stack])
+      elif how['how'] == 'now':
+        # the sink answers at once, inside AsyncProcessRequest (a serializer error, a balancer without members,
+        # a cached value ...)
+        reply, tok = make_reply(how['kind'], how['pick'], st['seq'])
+        ev.append({'e': 'Reply', 'seq': st['seq'], 'kind': how['kind'], 'tok': tok})
+        try:
+          sink_stack.AsyncProcessResponseMessage(reply)
+        except Exception:
+          st['escaped'] += 1
+      else:
+        # the sink raises inside AsyncProcessRequest: the message is never answered
+        st['thrown'] += 1
+        raise RuntimeError('sink failed while processing request ' + str(st['seq']))
 
     def AsyncProcessResponse(self, sink_stack, context, stream, msg):
       pass
+
+  def make_reply(kind, pick, seq):
+    rr = random.Random(pick)
+    if kind == 'value':
+      obj = _new_value(rr, seq, pool.Obj)
+      reply = MethodReturnMessage(return_value=obj)
+    else:
+      reply, obj = _error_reply(rr, MethodReturnMessage)
+    pool.add(obj)
+    return reply, pool.tok(obj)
 
   provider = SinkProvider(RecordingSink)()
 
@@ -1189,14 +1234,8 @@ def _run_e2e(loop, script, ev):
     if not outstanding:
       return
     seq, stack = outstanding.pop(op['pick'] % len(outstanding))
-    rr = random.Random(op['pick'])
-    if op['kind'] == 'value':
-      obj = _new_value(rr, seq, pool.Obj)
-      reply = MethodReturnMessage(return_value=obj)
-    else:
-      reply, obj = _error_reply(rr, MethodReturnMessage)
-    pool.add(obj)
-    ev.append({'e': 'Reply', 'seq': seq, 'kind': op['kind'], 'tok': pool.tok(obj)})
+    reply, tok = make_reply(op['kind'], op['pick'], seq)
+    ev.append({'e': 'Reply', 'seq': seq, 'kind': op['kind'], 'tok': tok})
     # delivered the way a transport's receive loop does: from a greenlet; what escapes from the response
     # processing dies there (the call it was for is judged by the End clause)
     r, g = _outside(loop, lambda: stack.AsyncProcessResponseMessage(reply))
@@ -1253,7 +1292,7 @@ def _run_e2e(loop, script, ev):
   if not g.dead:
     g.kill(block=False)
     loop.settle()
-  info.update(early=st['early'], calls=st['calls'], reopens=st['reopens'], escaped=st['escaped'])
+  info.update(early=st['early'], calls=st['calls'], reopens=st['reopens'], escaped=st['escaped'], thrown=st['thrown'])
   return info
 
 
@@ -1355,6 +1394,10 @@ def extra_coverage(prop, tier, traces):
           'e2e_scenarios_with_2plus_early_calls': sum(1 for t in e2e if t.get('meta', {}).get('early', 0) >= 2),
           'e2e_error_answers': sum(1 for t in e2e for e in t['ev'] if e['e'] == 'Reply' and e['kind'] == 'raise'),
           'e2e_answers_out_of_call_order': sum(1 for t in e2e if _out_of_order(t['ev'])),
+          'e2e_answers_inside_AsyncProcessRequest': sum(1 for t in e2e for a, b in zip(t['ev'], t['ev'][1:])
+                                                        if a['e'] == 'SinkRecv' and b['e'] == 'Reply' and b['seq'] == a['seq']),
+          'zk_uris_with_upper_case_path_or_name': sum(1 for t in traces for e in t['ev'] if e['e'] == 'Uri' and e.get('q') == 1
+                                                      and e['res']['kind'] == 'zk' and _has_upper(e['uri'])),
           'e2e_repeated_DispatcherOpen': sum(t.get('meta', {}).get('reopens', 0) for t in e2e),
           'e2e_scenarios_reopen_with_early_call_queued': sum(1 for t in e2e if _reopen_after_early(t['ev']))}
 
@@ -1369,6 +1412,13 @@ def _reopen_after_early(ev):
     elif e['e'] == 'Reopen' and seen_call:
       return True
   return False
+
+
+def _has_upper(uri):
+  txt = ''.join(chr(c) for c in uri)
+  tail = txt.split('://', 1)[-1]
+  tail = tail[tail.find('/'):] if '/' in tail else (tail[tail.find('#'):] if '#' in tail else '')
+  return any(c.isupper() for c in tail)
 
 
 def _out_of_order(ev):
